@@ -43,9 +43,13 @@ func (m *MTProto) sendPacket(request tl.Object, expectedTypes ...reflect.Type) (
 
 	// dealing with response channel
 	resp := m.getRespChannel()
-	if isNullableResponse(request) {
+	switch {
+	case isNullableResponse(request):
 		go func() { resp <- &objects.Null{} }() // goroutine cuz we don't read from it RIGHT NOW
-	} else {
+	case m.serviceModeActivated:
+		// answers of the key exchange are not rpc results: readMsg hands them to serviceChannel directly.
+		// an entry in the table would stay there for ever, and serviceChannel has no reader later on
+	default:
 		m.responseChannels.Add(int(msgID), resp)
 	}
 
